@@ -9,10 +9,12 @@ const (
 	messageTypePath           int32 = 4  // FileDescriptorProto.MessageType
 	enumTypePath              int32 = 5  // FileDescriptorProto.EnumType
 	servicePath               int32 = 6  // FileDescriptorProto.Service
+	extensionPath             int32 = 7  // FileDescriptorProto.Extension
 	syntaxPath                int32 = 12 // FileDescriptorProto.Syntax
 	messageTypeFieldPath      int32 = 2  // DescriptorProto.Field
 	messageTypeNestedTypePath int32 = 3  // DescriptorProto.NestedType
 	messageTypeEnumTypePath   int32 = 4  // DescriptorProto.EnumType
+	messageTypeExtensionPath  int32 = 6  // DescriptorProto.Extension
 	messageTypeOneofDeclPath  int32 = 8  // DescriptorProto.OneofDecl
 	enumTypeValuePath         int32 = 2  // EnumDescriptorProto.Value
 	serviceTypeMethodPath     int32 = 2  // ServiceDescriptorProto.Method
